@@ -654,9 +654,9 @@ type txWalk struct {
 	lastKey  string
 	streak   int
 	prevDone bool
-	// dead: the walk is abandoned (panic of the code under test, or the stored route grows without bound —
-	// known finding sameServiceGateway: a match step with canary Service = stable Service doubles the HTTPRoute
-	// on every round)
+	// dead: the walk is abandoned (panic of the code under test, or the stored route grows without bound — what a
+	// match step with canary Service = stable Service did before the repair of finding sameServiceGateway: a
+	// regression there must not hang the run)
 	dead bool
 }
 
@@ -989,19 +989,32 @@ func runTrafficXFixed(c *Ctx) {
 		w.until("doTrafficRouting", 4, true)
 		w.call("doTrafficRouting", nil)
 	}
-	// 5. known finding sameServiceGateway: DisableGenerateCanaryService with a Gateway ref
+	// 5. regression of the FIXED finding sameServiceGateway: DisableGenerateCanaryService with a Gateway ref —
+	//    newNetworkProvider refuses (canary Service name = stable Service name): every call returns the error, the
+	//    user's route is never touched
 	{
 		w := txFixedWalk(c, txProv{Gateway: true}, func(x *txCtx, _ *txNet) { x.DisableGen, x.Grace = true, 0 })
 		w.ctx.Traffic = pct(20)
 		w.until("doTrafficRouting", 4, true)
 		w.until("finalisingTrafficRouting", 4, true)
 	}
-	// 5b. … and a match step there never converges: every round doubles the generated rules
+	// 5b. … the same for a match step (before the repair every round doubled the generated rules), for
+	//     OnlyTrafficRouting, and for the individual calls
 	{
 		w := txFixedWalk(c, txProv{Gateway: true}, func(x *txCtx, _ *txNet) { x.DisableGen, x.Grace = true, 0 })
 		ex := "Exact"
 		w.ctx.Matches = []cMatch{{H: []cAtom{{T: &ex, N: "user", V: "tester"}}, Q: []cAtom{}}}
 		w.until("doTrafficRouting", 4, true)
+	}
+	{
+		nginxCls := "nginx"
+		w := txFixedWalk(c, txProv{Custom: true, Ingress: &nginxCls, Gateway: true}, func(x *txCtx, _ *txNet) { x.OnlyTR, x.Grace = true, 0 })
+		w.ctx.Traffic = pct(50)
+		w.call("initialize", nil)
+		w.until("doTrafficRouting", 2, true)
+		w.call("routeAllToNew", nil)
+		w.call("restoreGateway", nil)
+		w.until("finalisingTrafficRouting", 2, true)
 	}
 	// 6. known finding noRevKey: the workload cannot be read during the clean-up
 	{
@@ -1012,11 +1025,19 @@ func runTrafficXFixed(c *Ctx) {
 		w.ctx.HasRevKey = &f
 		w.until("finalisingTrafficRouting", 4, true)
 	}
-	// 7. known finding selectorlessStable: a stable Service without spec.selector
+	// 7. regression of the FIXED finding selectorlessStable: a stable Service without spec.selector —
+	//    createCanaryService returns an error (it used to panic), nothing is written, on every round; once the
+	//    Service has a selector the same walk goes through
 	{
 		w := txFixedWalk(c, txProv{Gateway: true}, func(_ *txCtx, n *txNet) { n.StableBare = true })
 		w.ctx.Traffic = pct(20)
 		w.call("doTrafficRouting", nil)
+		if !w.dead {
+			w.timePasses()
+			w.call("doTrafficRouting", nil)
+			w.net.StableBare = false
+			w.until("doTrafficRouting", 6, true)
+		}
 	}
 }
 
